@@ -72,7 +72,7 @@ def Packet.pack (p : Packet) : Packet × R Bytes :=
   | (ms', .error e) => ({ p with messages := ms' }, .error e)
   | (ms', .ok body) =>
     let p' := { p with messages := ms' }
-    match structPack PKT_pack_fmt0 [p.ttb * 1073741824 + p.messages.length] with
+    match structPack PKT_pack_fmt0 [1073741824 * p.ttb + p.messages.length] with
     | .error e => (p', .error e)
     | .ok csw => (p', .ok (csw ++ body))
 
